@@ -226,7 +226,9 @@ class InstGen:
                             raise
             for k in req:
                 if k not in out:
-                    out[k] = self.any_json(d + 1)
+                    # required but without a schema of its own: it falls under additionalProperties
+                    ap_ = s.get("additionalProperties")
+                    out[k] = self.inst(ap_, d + 1, minimal) if isinstance(ap_, dict) else self.any_json(d + 1)
             ap = s.get("additionalProperties")
             pp = s.get("patternProperties")
             if pp and not minimal:
